@@ -996,8 +996,12 @@ impl Drop for ReservedSession<'_> {
     fn drop(&mut self) {
         self.matter.with_state(|state| {
             if self.complete {
-                let session = unwrap!(state.sessions.get(self.id));
-                session.reserved = false;
+                // The session might be gone already: e.g. its fabric was removed (and all of
+                // the fabric's sessions with it) while the last message of the handshake was
+                // still under way. Then there is nothing to make live.
+                if let Some(session) = state.sessions.get(self.id) {
+                    session.reserved = false;
+                }
             } else {
                 state.sessions.remove(self.id);
             }
